@@ -154,6 +154,30 @@ def claim_conflicts(case):
     return {tp: v for tp, v in tab.items() if len({g for g, _ in v}) >= 2}
 
 
+SIG_PINGPONG = ("sticky_assignor.py:_perform_reassignments: passes alternate between the same assignments (a move is turned "
+                "into moving another partition of the topic back, the next pass undoes it); stopped at the repetition, "
+                "result valid but not KIP-54 balanced")
+
+
+def pingpong_signature(st):
+    """the balancing passes went round in a circle: replaying the recorded op log (starting assignment, placements of
+    unassigned partitions, moves), the assignment the run ended with had already been reached after an earlier move.
+    Before /repo's termination guard such a run never ended; with it the passes stop there, and the assignment
+    returned need not be balanced"""
+    if "init" not in st:
+        return None
+    owner = {(t, p): m for m, t, p in st["init"]}
+    for t, p, m in st.get("assigns") or []:
+        owner[(t, p)] = m
+    seen = []
+    for mv in st.get("reassigns") or []:
+        owner[(mv[3], mv[4])] = mv[2]
+        seen.append(frozenset(owner.items()))
+    if len(seen) >= 2 and seen[-1] in seen[:-1]:
+        return SIG_PINGPONG
+    return None
+
+
 def stale_claimant_signature(case, kind, viol=None):
     """input class of the defects fixed by /repo c41f241 (regression signatures, no longer
     listed as known): some partition is claimed with different generations and a
@@ -447,7 +471,7 @@ def check_sticky(ck, case, st, tally, streams, origin, prop="C14"):
     kb = mon_kip54(case, out)
     known_unbalanced = False
     if kb and not known_invalid:
-        sig = stale_claimant_signature(case, "unbalanced", st)
+        sig = stale_claimant_signature(case, "unbalanced", st) or pingpong_signature(st)
         known_unbalanced = sig is not None
         viol(ck, f"sticky assignor result not KIP-54 balanced: {kb[0]}",
                      dict(replay, real=out, flaws=kb[:5], log=st),
@@ -485,8 +509,14 @@ def settle(ck, tally, streams, results, engine):
             g = dict(zip(K1_FIELDS, got))
             d = {"case": case, "log": {k: st[k] for k in ("init", "prev", "assigns", "reassigns", "reverted", "final")}, "model": g}
             tally.ok(f"{engine}:sticky-init_current", g["init_current"] == 1 and g["previous_assignment"] == 1, d)
-            tally.ok(f"{engine}:sticky-oplog-accepted-by-StickyCtl",
-                     g["ctl_accepts_log"] == 1 and g["ctl_final_equals_returned"] == 1, d)
+            if pingpong_signature(st) is not None and g["ctl_accepts_log"] == 0:
+                # the passes went round in a circle and were stopped by the termination guard: neither of the two exits
+                # of the model's loop (balanced / a pass without a move) - the run is outside StickyCtl, as the known
+                # finding says (its result is still checked by the monitors and against the abstract machine)
+                tally.n[f"{engine}:sticky-oplog-circle-outside-StickyCtl(known finding)"] += 1
+            else:
+                tally.ok(f"{engine}:sticky-oplog-accepted-by-StickyCtl",
+                         g["ctl_accepts_log"] == 1 and g["ctl_final_equals_returned"] == 1, d)
             if not known_invalid:
                 tally.ok(f"{engine}:sticky-oplog-is-StickyAbs-run", g["abs_run_ends_in_returned"] == 1, d)
             else:
